@@ -494,6 +494,14 @@ def F49(fil):
     return abs(back.header.fch1 - ts.header.fch1) > 1e-6, f"read_chan(3).to_dat() -> from_dat(): fch1 {ts.header.fch1} became {back.header.fch1}"
 
 
+def F50(fil):
+    x = np.random.default_rng(3).integers(40, 60, (20, 3)).astype(np.uint8)
+    full = stats.ChannelStats(3, 20)
+    full.push_data(x.ravel(), 0, mode="full")
+    merged = stats.ChannelStats(3, 0) + full
+    return not np.array_equal(merged.minima, x.min(axis=0)), f"empty + full accumulator: minima {merged.minima.tolist()}, data minima {x.min(axis=0).tolist()}"
+
+
 ALL = {k: v for k, v in globals().items() if k.startswith("F") and k[1:].isdigit()}
 
 
